@@ -18,6 +18,11 @@
 //	NodeVisitor object for several Runs on other trees / other AddOffset, one data source
 //	object for several images.
 //
+// Volume lists (volumes.go): VolumeOf on what an inner data source may hand over -- several
+//
+//	ranges per reference, several references, in every relation to the borders between
+//	neighbour volumes.
+//
 // Delivered bytes (delivered.go): what Data.RawBytes() of a data-source result hands to the
 //
 //	hash, byte by byte against the image, for range lists of every relation (overlapping,
@@ -101,7 +106,8 @@ func main() {
 		"GALAGOPRO3, the synthetic Intel image, both behind a flash descriptor, tail truncations and parse-preserving byte mutations; " +
 		"synthetic BIOS regions built from the PI layouts (few GUIDs used many times as file and volume names: inside zlib/LZMA-compressed sections, nested compressed sections, after them, in sibling and nested volumes; named/unnamed volumes, pad and raw files, non-processed sections); " +
 		"the synthetic Intel image with re-shaped Boot Policy / Key Manifests (IBB digest list in every order and composition: SHA1 first/last/absent/twice, other algorithms and odd buffer lengths in between; PostIBB/OBB hashes, extra segments incl. hashed segments that overlap / lie inside / repeat another one in front of or behind it, TXT/PM elements present or not, more KM hashes, manifests moved) for PCR0_DATA, incl. the digest-reference search as correspondence cases; " +
-		"D: the BYTES delivered (Data.RawBytes()) judged byte-wise against the image for every data-source result above and for MemRanges lists of every relation (single, disjoint, touching, overlapping, nested, repeated, overlap chains, unsorted, zero-length in between, first/last byte, whole+part, same start/end, random; leaving the image: corresponded, not judged) on small BIOSImages of 1..256 random non-zero bytes and inside windows of the parsed images (start, end = just below 4 GiB, around located objects), lists built from objects of the tree (object + object inside it, the same object twice, later object first, a range across an object's end) through MemRanges and VolumeOf(MemRanges); UEFIGUIDFirst / UEFIFiles results spanning <= 3000 bytes as correspondence cases from the ranges the walker reported")
+		"D: the BYTES delivered (Data.RawBytes()) judged byte-wise against the image for every data-source result above and for MemRanges lists of every relation (single, disjoint, touching, overlapping, nested, repeated, overlap chains, unsorted, zero-length in between, first/last byte, whole+part, same start/end, random; leaving the image: corresponded, not judged) on small BIOSImages of 1..256 random non-zero bytes and inside windows of the parsed images (start, end = just below 4 GiB, around located objects), lists built from objects of the tree (object + object inside it, the same object twice, later object first, a range across an object's end) through MemRanges and VolumeOf(MemRanges); UEFIGUIDFirst / UEFIFiles results spanning <= 3000 bytes as correspondence cases from the ranges the walker reported; " +
+		"E: VolumeOf on LISTS of ranges (volumes.go) on every parsed image incl. GALAGOPRO3 and synthetic BIOS regions whose volumes start where their neighbour ends: two ranges touching each other exactly at the border of two neighbour volumes (either order, whole volumes, last byte + first byte, in two references, as plain image offsets without an address mapper, with a third range between them in the list, chains over three neighbours), the same with a gap (control), touching / overlapping ranges inside one volume, distant volumes, a volume twice with another in between, several references with 0-3 ranges each, 1-6 random ranges, no range / no reference, and (corresponded, judged only for 'no answer for a range that touches no volume' and 'nothing but volumes that touch a given range') a range across a border, an empty range in between, a range anywhere in the image; handed over through MemRanges, through an inner data source answering with several references, and through IBB / FITAll (Boot Policy Manifests whose hashed IBB segments are whole neighbour volumes or the end of one + the start of the next); the inner source's ranges re-read after the call")
 }
 
 // ------------------------------------------------------------------ Part A
@@ -522,6 +528,9 @@ func imagesPart(ctx *gal.Ctx, fake, galago []byte) {
 	}
 
 	// the synthetic Intel image with Boot Policy / Key Manifests of other shapes
+	if fw, err := parseWithTimeout(fake); err == nil && fw != nil {
+		fakeTopVolumes = volumesOf(groundTruth(fake, fw.Firmware))
+	}
 	for k := 0; k < ctx.Scale(36, 300); k++ {
 		b, descr, ok := manifestVariant(rng, fake, k)
 		if !ok {
@@ -602,6 +611,7 @@ func imagesPart(ctx *gal.Ctx, fake, galago []byte) {
 	// the same objects used again: one visitor for several Runs, one data source for several images
 	walkerSessions(ctx, pool, families, heavyRun)
 	dataSourceSessions(ctx, pool, families)
+	volumeOfLists(ctx, pool, heavyRun)
 	deliveredOnImages(ctx, pool, heavyRun)
 	ctx.Rep.Extra["images_tried"] = len(ims)
 	ctx.Rep.Extra["images_parsed"] = parsed
